@@ -37,14 +37,18 @@ Abstractions:
 * `clocks`  — Block Time/Scope Time are paused whenever System State ≠ Running (set in
               `update_calculated_tags`), and Restart zeroes Process Time/Run Time like Start;
 * `prevFix` — `set_run_id`/`clear_run_id` clear `_prev_state`.
-Further switches (all default off = code as it was when the model was first written; /repo HEAD has the first six):
+Further switches (all default off = code as it was when the model was first written; /repo HEAD has the first six
+and `cancel2`):
 * `startWrite`, `pauseGate`, `errSafe` — the three C08 repairs (fixes/C08-*.diff);
 * `pauseOnce` — a Pause body that runs while already paused keeps the snapshot of the pause onset
                 (fixes/C09-double-pause-capture.diff);
 * `idleErr`  — `set_error_state` with no run active only reports the error, System State stays Stopped
-                (fixes/C06-error-while-idle-stays-stopped.diff).
+                (fixes/C06-error-while-idle-stays-stopped.diff);
+* `cancel2`  — Stop and Restart cancel all commands once more in their second phase, so that a user UOD
+                command that started inside the stop window does not survive (/repo 90a68ba6,
+                fixes/C10-dispose-instances-on-stop.diff).
 The checks probe the tree under test (harness/runstate.py `probe`) and use the matching variant.
-Fields `lastCap`, `capRun`, `capLive`, `onsetCap`, `touched`, `touchedRun` of `Core` are history (ghost)
+Fields `lastCap`, `capRun`, `capLive`, `onsetCap`, `touched`, `touchedRun`, `restartGap` of `Core` are history (ghost)
 variables: written, never read.
 Core Lean only.
 -/
@@ -81,6 +85,9 @@ structure Cfg where
   /-- C06 repair (error while idle): `set_error_state` with no run active only reports the error
       (Method Status); System State stays Stopped and the paused flag is not set -/
   idleErr : Bool := false
+  /-- /repo 90a68ba6 (fixes/C10-dispose-instances-on-stop.diff): Stop and Restart call
+      `cancel_all_commands` a second time, in the phase after their first `yield` -/
+  cancel2 : Bool := false
 deriving Repr
 
 /-- Events of the interpreter that the clock tags listen to. -/
@@ -168,6 +175,9 @@ structure Core where
   /-- (history) what was captured when the current / most recent pause *began* (`paused` went from false to
       true); not overwritten by a Pause body that runs while already paused -/
   onsetCap : Option (List (Option Int)) := none
+  /-- (history) the run was ended by the first half of a Restart (which, unlike Stop, writes nothing) and no
+      run has started since -/
+  restartGap : Bool := false
 deriving Repr
 
 namespace Core
@@ -196,7 +206,7 @@ def startRun (cfg : Cfg) (c : Core) : Core :=
   { c with started := true, paused := false, holding := false,
            runId := some c.nextRunId, nextRunId := c.nextRunId + 1,
            sys := .running, methodErr := false, rt := 0, pt := 0,
-           blocks := [], prev := c.clearPrev cfg }
+           blocks := [], prev := c.clearPrev cfg, restartGap := false }
 
 def pause (cfg : Cfg) (c : Core) : Core :=
   if cfg.pauseOnce && c.paused then { c with sys := .paused, clkPaused := true }
@@ -241,13 +251,13 @@ def restartBegin (c : Core) : Core := { c with sys := .restarting, stopping := t
 
 def restartMid (cfg : Cfg) (c : Core) : Core :=
   { c with started := false, paused := false, holding := false, stopping := false,
-           sys := .stopped, runId := none, prev := c.clearPrev cfg }
+           sys := .stopped, runId := none, prev := c.clearPrev cfg, restartGap := true }
 
 def restartFinish (cfg : Cfg) (c : Core) : Core :=
   { c with started := true, paused := false, holding := false,
            runId := some c.nextRunId, nextRunId := c.nextRunId + 1,
            rt := if cfg.clocks then 0 else c.rt, pt := if cfg.clocks then 0 else c.pt,
-           blocks := [], sys := .running, prev := c.clearPrev cfg }
+           blocks := [], sys := .running, prev := c.clearPrev cfg, restartGap := false }
 
 /-- `update_calculated_tags` (only called while started) incl. `on_tick` of the two clock tags -/
 def clock (cfg : Cfg) (inc : Int) (c : Core) : Core :=
@@ -506,7 +516,8 @@ def instTick (cfg : Cfg) (s : State) (c : Cmd) (i : Inst) : State × Res :=
         (cancelAll .stop { s with core := s.core.stopBegin, reg := s.reg.set c (some { i with phase := 1 }) },
          .resident)
     else
-      ((({ s with core := s.core.stopFinish cfg }.setTracking false).swapMgr).dispose c, .finalized)
+      let s0 := if cfg.cancel2 then cancelAll .stop s else s
+      ((({ s0 with core := s0.core.stopFinish cfg }.setTracking false).swapMgr).dispose c, .finalized)
   | .restart =>
     if i.phase = 0 then
       if s.core.sys = .stopped ∨ s.core.sys = .restarting then (s.dispose c, .failed)
@@ -515,7 +526,8 @@ def instTick (cfg : Cfg) (s : State) (c : Cmd) (i : Inst) : State × Res :=
           { s with core := s.core.restartBegin, reg := s.reg.set c (some { i with phase := 1 }) },
          .resident)
     else if i.phase = 1 then
-      let s1 := ({ s with core := s.core.restartMid cfg }.setTracking false).swapMgr
+      let s0 := if cfg.cancel2 then cancelAll .restart s else s
+      let s1 := ({ s0 with core := s0.core.restartMid cfg }.setTracking false).swapMgr
       ({ s1 with reg := s1.reg.set c (some { i with phase := 2 }) }, .resident)
     else
       (({ s with core := s.core.restartFinish cfg }.setTracking true).dispose c, .finalized)
@@ -686,9 +698,10 @@ def run (cfg : Cfg) (s : State) (ops : List Op) : State := ops.foldl (fun s o =>
 /-! The code as it is, and with the three repairs; `safes` as in the harness UOD. -/
 def asIs (safes : List (Option Int)) : Cfg := { safes, guard := false, clocks := false, prevFix := false }
 def repaired (safes : List (Option Int)) : Cfg := { safes, guard := true, clocks := true, prevFix := true }
-/-- … and with the three C08 repairs as well -/
+/-- … and with the three C08 repairs and the second cancel of Stop/Restart as well (= /repo 90a68ba6) -/
 def repaired8 (safes : List (Option Int)) : Cfg :=
-  { safes, guard := true, clocks := true, prevFix := true, startWrite := true, pauseGate := true, errSafe := true }
+  { safes, guard := true, clocks := true, prevFix := true, startWrite := true, pauseGate := true, errSafe := true,
+    cancel2 := true }
 /-- … and with the double-Pause and error-while-idle repairs -/
 def repaired10 (safes : List (Option Int)) : Cfg :=
   { repaired8 safes with pauseOnce := true, idleErr := true }
